@@ -225,16 +225,19 @@ impl<R: Read + Seek> ReadBox<&mut R> for AvcCBox {
         let profile_compatibility = reader.read_u8()?;
         let avc_level_indication = reader.read_u8()?;
         let length_size_minus_one = reader.read_u8()? & 0x3;
+        // bytes of the box that follow the 6 fixed bytes: the parameter sets must fit in them
+        let mut remaining = size.saturating_sub(HEADER_SIZE + 6);
         let num_of_spss = reader.read_u8()? & 0x1F;
         let mut sequence_parameter_sets = Vec::with_capacity(num_of_spss as usize);
         for _ in 0..num_of_spss {
-            let nal_unit = NalUnit::read(reader)?;
+            let nal_unit = NalUnit::read(reader, &mut remaining)?;
             sequence_parameter_sets.push(nal_unit);
         }
+        remaining = remaining.checked_sub(1).ok_or(NalUnit::OVERRUN)?;
         let num_of_ppss = reader.read_u8()?;
         let mut picture_parameter_sets = Vec::with_capacity(num_of_ppss as usize);
         for _ in 0..num_of_ppss {
-            let nal_unit = NalUnit::read(reader)?;
+            let nal_unit = NalUnit::read(reader, &mut remaining)?;
             picture_parameter_sets.push(nal_unit);
         }
 
@@ -292,8 +295,13 @@ impl NalUnit {
         2 + self.bytes.len()
     }
 
-    fn read<R: Read + Seek>(reader: &mut R) -> Result<Self> {
+    const OVERRUN: Error = Error::InvalidData("avcC parameter sets extend beyond the box");
+
+    // `remaining`: bytes of the enclosing box not consumed yet; the unit must fit in them
+    fn read<R: Read + Seek>(reader: &mut R, remaining: &mut u64) -> Result<Self> {
+        *remaining = remaining.checked_sub(2).ok_or(Self::OVERRUN)?;
         let length = reader.read_u16::<BigEndian>()? as usize;
+        *remaining = remaining.checked_sub(length as u64).ok_or(Self::OVERRUN)?;
         let mut bytes = vec![0u8; length];
         reader.read_exact(&mut bytes)?;
         Ok(NalUnit { bytes })
